@@ -45,7 +45,8 @@ import gc
 LEVEL = "exploration"
 ENGINE = "core"
 TECHNIQUE = "runtime monitoring: per-task state model (runnable/paused/waiting/done) + exactly-once completion + bounded wait"
-RULE = ("random cases: <= 8 iterator programs (steps: value / Deferred / raise, then exhaustion; optional operation executed "
+RULE = ("random cases: <= 8 iterator programs (steps: value / Deferred [unfired | fired-but-chained-to-pending | fired-and-paused | "
+        "already delivered] / raise, then exhaustion; optional operation executed "
         "from inside next()), termination predicate after u in {1,2,3,inf} work units, started flag, and 10-70 operations: "
         "add (cooperate/coiterate), tick, pause, resume, stop, fire the k-th outstanding Deferred ok/failed, whenDone with an "
         "optional operation run from its callback, Cooperator.stop()/start(); then a drain phase.  Distinct = the whole case; "
@@ -233,7 +234,10 @@ class Monitor:
 
         def terminator():
             n[0] += 1
-            return u is not None and n[0] >= u
+            if n[0] > 5000 and not self.bad:
+                self.fail("tick-runaway", "one tick performed more than 5000 work units (finite iterators of <= 160 steps, <= 8 tasks)")
+            # once a violation is reported the case is wound down: end the tick (a broken run list could spin forever)
+            return self.bad or (u is not None and n[0] >= u)
 
         return terminator
 
@@ -655,6 +659,12 @@ class Monitor:
             self.do_op(op)
         if not self.bad:
             self.drain()
+        for _, fire, d, _ in self.outstanding:  # (only after a violation cut the case short)
+            if fire is None:
+                try:
+                    d.unpause()
+                except Exception:  # noqa: BLE001
+                    pass
         for d in self.yielded:  # Deferreds the Cooperator never owned (task finished during that next()) may hold a failure
             d.addErrback(lambda _: None)
         return self
